@@ -270,10 +270,40 @@ func genC06(g *G) {
 	if g.thorough {
 		hists = 400
 	}
+	// clone scenarios: a clone taken while absorbing / after 1..2 squeezed blocks must continue exactly like the
+	// original, and the original must be unaffected by what the clone does (X swaps between the two)
+	absorb := func(blocks int) string {
+		lanes := 1 + g.r.intn(64)
+		parts := make([]string, lanes)
+		for j := range parts {
+			parts[j] = g.tritLane(243 * blocks)
+		}
+		return fmt.Sprintf("A:%d:%s", 243*blocks, strings.Join(parts, ","))
+	}
+	squeeze := func(blocks int) string { return fmt.Sprintf("S:%d:%d", 1+g.r.intn(64), 243*blocks) }
+	scen := 3
+	if g.thorough {
+		scen = 60
+	}
+	for i := 0; i < scen; i++ {
+		ops := []string{absorb(1 + g.r.intn(2))}
+		switch i % 3 {
+		case 0: // clone while absorbing; both absorb different data, then squeeze
+			ops = append(ops, "C", absorb(1), "X", absorb(1), squeeze(1), "X", squeeze(2))
+		case 1: // clone after squeezing: the next block of the clone is the next block of the original
+			ops = append(ops, squeeze(1+g.r.intn(2)), "C", squeeze(1), "X", squeeze(1+g.r.intn(2)), "X", squeeze(1))
+		case 2: // clone, reset the original, continue on the clone
+			ops = append(ops, squeeze(g.r.intn(2)), "C", "R", absorb(1), "X", squeeze(2), "X", squeeze(1))
+		}
+		g.emit("curl.hist", strings.Join(ops, ";"))
+	}
 	for hI := 0; hI < hists; hI++ {
 		var ops []string
 		nops := 2 + g.r.intn(6)
 		squeezed := false
+		if g.r.intn(5) != 0 { // most histories start with data in the sponge (the zero state squeezes zeros for ever)
+			ops = append(ops, absorb(1+g.r.intn(2)))
+		}
 		for k := 0; k < nops; k++ {
 			switch c := g.r.intn(12); {
 			case c < 5 && !squeezed: // absorb, batch size 1..64 varying between calls, 0..3 blocks
